@@ -101,7 +101,10 @@ union PGSlot { ProofGraph g; PGSlot() {} ~PGSlot() {} };
 union NodeSlot { ProofNode n; NodeSlot() {} ~NodeSlot() {} };
 union MaskSlot { ipartitions_t z; MaskSlot() {} ~MaskSlot() {} };
 
-static unsigned char fake_logic[8], fake_config[8], fake_pm[8], fake_th[8];
+static unsigned char fake_logic[8], fake_config[8], fake_pm[8];
+extern "C" Logic * stub_getLogic(Theory *) { return reinterpret_cast<Logic *>(fake_logic); }
+#define VT1 (void *)&stub_getLogic,
+#define VT8 VT1 VT1 VT1 VT1 VT1 VT1 VT1 VT1
 
 struct World {
     CtxSlot ctx; PGSlot pg; MaskSlot amask;
@@ -131,34 +134,51 @@ static void world_init(World & w, int nnodes, bool with_assumed, Lit assumed) {
         VASSUME((w.vpart[v] & ~((1u << (NPART + 1)) - 2)) == 0 && w.vpart[v] != 0);   // every proof variable occurs in some partition
         new (&var_part[v].z) ipartitions_t((unsigned long)w.vpart[v]);
     }
-    SICC * c = &w.ctx.c;
-    new (&c->AB_vars_mapping) std::vector<int>();
-    new (&c->nodeData) std::vector<SICC::InterpolationNodeData>();
-    new (&c->thandler) std::unique_ptr<THandler>(reinterpret_cast<THandler *>(fake_th));
-    set_ref(c, __builtin_offsetof(SICC, logic), fake_logic);
-    set_ref(c, __builtin_offsetof(SICC, config), fake_config);
-    set_ref(c, __builtin_offsetof(SICC, pmanager), fake_pm);
-    set_ref(c, __builtin_offsetof(SICC, proofGraph), &w.pg.g);
-    set_ref(c, __builtin_offsetof(SICC, A_mask), &w.amask.z);
-    VASSERT((void *)&c->logic == (void *)fake_logic && (void *)&c->proofGraph == (void *)&w.pg.g && (void *)&c->A_mask == (void *)&w.amask.z,
-            "harness: reference members located");
+    // the proof graph in raw storage: every variable 0..NV-1 is a proof variable (hand-linked std::set nodes, iterated by
+    // the real std::set iterator code), no leaves registered (initTSolver only looks at theory leaves), no nodes
+    // (nodeData is set up below), assumed literals as given
     new (&w.pg.g.assumedLiterals) std::vector<Lit>();
     if (with_assumed) w.pg.g.assumedLiterals.push_back(assumed);
-    // variable classes: the loop of the real constructor, with the real getVarClass / getClass on the real masks
-    c->AB_vars_mapping.resize(NV, -3);
+    new (&w.pg.g.leaves_ids) std::set<clauseid_t>();
+    new (&w.pg.g.graph) std::vector<ProofNode *>();
+    {
+        static std::_Rb_tree_node<Var> vn[NV];
+        auto & hdr = w.pg.g.proof_variables._M_t._M_impl._M_header;
+        hdr._M_color = std::_S_red; hdr._M_parent = &vn[0]; hdr._M_left = &vn[0]; hdr._M_right = &vn[NV - 1];
+        w.pg.g.proof_variables._M_t._M_impl._M_node_count = NV;
+        for (int v = 0; v < NV; v++) {
+            vn[v]._M_color = std::_S_black; vn[v]._M_left = nullptr;
+            vn[v]._M_right = v + 1 < NV ? &vn[v + 1] : nullptr;
+            vn[v]._M_parent = v == 0 ? &hdr : static_cast<std::_Rb_tree_node_base *>(&vn[v - 1]);
+            *vn[v]._M_valptr() = v;
+        }
+    }
+    // the REAL constructor (THandler's constructor cut, Theory::getLogic through a fake vtable)
+    static void * fake_vt[24] = {VT8 VT8 VT8};
+    static void * fake_theory[2] = {(void *)fake_vt, nullptr};
+    SICC * c = new (&w.ctx.c) SICC(*reinterpret_cast<SMTConfig *>(fake_config), *reinterpret_cast<Theory *>(fake_theory),
+                                   *reinterpret_cast<TermMapper *>(fake_tmap), *reinterpret_cast<PartitionManager *>(fake_pm), w.pg.g, w.amask.z);
+    VASSERT((void *)&c->logic == (void *)fake_logic && (void *)&c->proofGraph == (void *)&w.pg.g && (void *)&c->A_mask == (void *)&w.amask.z,
+            "harness: reference members as passed to the constructor");
+    // the variable-class cache against the bit-mask definition of A-local / B-local / shared
     int AB_bit_index = 0;
     w.shared = 0; w.allowed = 0;
+    VASSERT(c->AB_vars_mapping.size() == NV, "constructor: one cache entry per proof variable");
     for (int v = 0; v < NV; v++) {
-        icolor_t k = c->getVarClass(v);
-        // specification of getClass on bit masks
         bool inA = (w.vpart[v] & w.amask_bits) != 0, inB = (w.vpart[v] & ~w.amask_bits) != 0;
         bool isAssumed = with_assumed && var(assumed) == v;
-        if (!isAssumed) VASSERT(k == (inA && inB ? icolor_t::I_AB : inA ? icolor_t::I_A : icolor_t::I_B), "getVarClass: A-local / B-local / shared as defined by the partition masks");
-        if (k == icolor_t::I_A) { c->AB_vars_mapping[v] = -1; w.cls[v] = 1; }
-        else if (k == icolor_t::I_B) { c->AB_vars_mapping[v] = -2; w.cls[v] = 2; }
-        else { c->AB_vars_mapping[v] = AB_bit_index++; w.cls[v] = 3; w.shared |= (uint8_t)(1u << v); if (!isAssumed) w.allowed |= (uint8_t)(1u << v); }
+        int m = c->AB_vars_mapping[v];
+        if (isAssumed || (inA && inB)) {
+            VASSERT(m == AB_bit_index, "constructor: shared (and assumed) variables get consecutive label-bit indices");
+            AB_bit_index++; w.cls[v] = 3; w.shared |= (uint8_t)(1u << v); if (!isAssumed) w.allowed |= (uint8_t)(1u << v);
+        } else {
+            VASSERT(m == (inA ? -1 : -2), "constructor: A-local / B-local as defined by the partition masks");
+            w.cls[v] = inA ? 1 : 2;
+        }
+        VASSUME(m == (w.cls[v] == 3 ? AB_bit_index - 1 : w.cls[v] == 1 ? -1 : -2));
     }
-    // nodeData: three default-constructed elements in static storage (vector::resize divides by sizeof == 40: a 64-bit divider per call)
+    // nodeData (sized 0 by the constructor for the empty graph): three default-constructed elements in static storage
+    // (vector::resize divides by sizeof == 40: a 64-bit divider per call)
     static union NDSlot { SICC::InterpolationNodeData d[3]; NDSlot() {} ~NDSlot() {} } nd;
     for (int i = 0; i < 3; i++) new (&nd.d[i]) SICC::InterpolationNodeData();
     c->nodeData._M_impl._M_start = &nd.d[0]; c->nodeData._M_impl._M_finish = &nd.d[0] + nnodes; c->nodeData._M_impl._M_end_of_storage = &nd.d[0] + 3;
@@ -366,10 +386,11 @@ template <int N, int KIND, bool ASSUMED> static void leaf_step() {
         if (cfg_alg == 3) VWITNESS("ps"); if (cfg_alg == 4) VWITNESS("psw"); if (cfg_alg == 5) VWITNESS("pss");
     }
 }
-extern "C" void h_leaf_orig_1() { leaf_step<1, 0, false>(); }
-extern "C" void h_leaf_orig_2() { leaf_step<2, 0, false>(); }
+// several clause lengths per entry: one CBMC start-up instead of one per length
+extern "C" void h_leaf_orig() {
+    leaf_step<1, 0, false>(); leaf_step<2, 0, false>();
 #if NV >= 3
-extern "C" void h_leaf_orig_3() { leaf_step<3, 0, false>(); }
+    leaf_step<3, 0, false>();
 #endif
-extern "C" void h_leaf_orig_assumed_2() { leaf_step<2, 0, true>(); }
-extern "C" void h_leaf_split() { leaf_step<2, 1, false>(); }
+}
+extern "C" void h_leaf_assumed_split() { leaf_step<2, 0, true>(); leaf_step<2, 1, false>(); }
